@@ -14,6 +14,9 @@
 (* The driver measures the unfolding with a walk bounded by 2^21 cells; an     *)
 (* input beyond that is "capped": its true size is unknown (and larger), so    *)
 (* only the crash / hang clauses apply to it.                                  *)
+(* Time is the processor time of the calling thread ("ms"), so that a busy     *)
+(* machine cannot produce a breach; a call that does not come back within the  *)
+(* driver's wall-clock limit (20 s) is a Timeout.                              *)
 (* The constants are generous on purpose; a breach must reproduce on a second  *)
 (* run before the runner reports it.                                           *)
 (*                                                                             *)
